@@ -32,27 +32,22 @@ Fixpoint cprod {A : Type} (xss : list (list A)) : list (list A) :=
   | xs :: rest => flat_map (fun x => map (cons x) (cprod rest)) xs
   end.
 
+Definition replaced (mk : string -> term) (t : term) (found : option (list string))
+           (descend : list term) : list term :=
+  match found with
+  | Some [] => [t]
+  | Some ps => map mk ps
+  | None => descend
+  end.
+
 Fixpoint subst (rm : rmap) (t : term) {struct t} : list term :=
   match t with
   | Node l ks =>
-      let descend :=
-        map (Node l) (cprod ((fix go (xs : list term) : list (list term) :=
-                                match xs with
-                                | [] => []
-                                | x :: xs' => subst rm x :: go xs'
-                                end) ks)) in
+      let descend := map (Node l) (cprod (map (subst rm) ks)) in
       if is_type_kind l then
-        match rm_lookup rm (VTerm (Node l ks)) with
-        | Some [] => [Node l ks]
-        | Some ps => map mk_ty_param ps
-        | None => descend
-        end
+        replaced mk_ty_param (Node l ks) (rm_lookup rm (VType (Node l ks))) descend
       else if is_expr_kind l then
-        match rm_lookup rm (VTerm (Node l ks)) with
-        | Some [] => [Node l ks]
-        | Some ps => map mk_ex_param ps
-        | None => descend
-        end
+        replaced mk_ex_param (Node l ks) (rm_lookup rm (VExpr (Node l ks))) descend
       else descend
   end.
 
